@@ -75,8 +75,10 @@ class Code13(CodeBase):
         for field, fieldtype in self.fieldtypes.items():
             val = getattr(self, field)
             if isinstance(fieldtype, tuple):
-                assert (
-                    type(val) in fieldtype
+                # isinstance, not "type(val) in": a native code object may
+                # carry a subclass, e.g. of str as co_filename.
+                assert isinstance(
+                    val, fieldtype
                 ), "%s should be one of the types %s; is type %s" % (
                     field,
                     fieldtype,
